@@ -8,8 +8,8 @@ use serde_json::{Value, json};
 
 pub const TYARGS: [&str; 13] =
     ["int32", "bool", "string", "unit", "(int32,bool)", "[int32;2]", "Vec[int32]", "Ref[int32]", "(int32)->int32", "S", "E2", "Opt[int32]", "Opt[Opt[bool]]"];
-pub const TEMPLATES: [&str; 15] =
-    ["vec-generic", "ref-generic", "array-generic", "id", "pair", "apply", "opt-unwrap", "box-method", "trait-dispatch", "generic-calls-generic", "recursive-list", "two-bounds", "two-instances", "generic-fn-value", "nested-instantiation"];
+pub const TEMPLATES: [&str; 18] =
+    ["return-only-param", "zero-arg-generic", "swapped-params", "vec-generic", "ref-generic", "array-generic", "id", "pair", "apply", "opt-unwrap", "box-method", "trait-dispatch", "generic-calls-generic", "recursive-list", "two-bounds", "two-instances", "generic-fn-value", "nested-instantiation"];
 
 fn opt(t: Ty) -> Ty {
     Ty::Named("Opt".into(), vec![t])
@@ -171,6 +171,67 @@ pub fn build(template: &str, a: &str, b: &str) -> Option<Program> {
     let mut body: Vec<Stmt> = Vec::new();
     let show = |name: &str, e: E| st(println(render(name, e)));
     match template {
+        "return-only-param" => {
+            // a type parameter that occurs only in the result type, at two instantiations that agree
+            // on the argument-bound parameter
+            cx.items.push(Item::Enum(EnumDef { name: "Either".into(), generics: vec!["L".into(), "R".into()], variants: vec![("Lft".into(), vec![tp("L")]), ("Rgt".into(), vec![tp("R")])], derives: vec![] }));
+            let either = |l: Ty, r: Ty| Ty::Named("Either".into(), vec![l, r]);
+            let (x, y) = (cx.n.fresh("x"), cx.n.fresh("y"));
+            cx.items.push(gfn("left", &["L", "R"], vec![], vec![(x, tp("L"))], either(tp("L"), tp("R")), E::Ctor("Either".into(), "Lft".into(), false, vec![v(x)], vec![tp("L"), tp("R")])));
+            cx.items.push(gfn("right", &["L", "R"], vec![], vec![(y, tp("R"))], either(tp("L"), tp("R")), E::Ctor("Either".into(), "Rgt".into(), false, vec![v(y)], vec![tp("L"), tp("R")])));
+            let c = if b == "string" { "int32" } else { "string" };
+            let tc = ty_of(c);
+            let (e1, e2, e3) = (cx.n.fresh("e"), cx.n.fresh("e"), cx.n.fresh("e"));
+            let (va, va2, vb) = (value(&mut cx, a, 1), value(&mut cx, a, 2), value(&mut cx, b, 3));
+            body.push(let_t(e1, either(ta.clone(), tb.clone()), callg("left", vec![ta.clone(), tb.clone()], vec![va])));
+            body.push(let_t(e2, either(ta.clone(), tc.clone()), callg("left", vec![ta.clone(), tc.clone()], vec![va2])));
+            body.push(let_t(e3, either(ta.clone(), tb.clone()), callg("right", vec![ta.clone(), tb.clone()], vec![vb])));
+            for (e, rname) in [(e1, b), (e2, c), (e3, b)] {
+                let (l, r) = (cx.n.fresh("l"), cx.n.fresh("r"));
+                body.push(st(println(E::Match(
+                    Box::new(v(e)),
+                    vec![
+                        (Pat::Ctor("Either".into(), "Lft".into(), false, vec![Pat::Var(l)]), add(s("L:"), render(a, v(l)))),
+                        (Pat::Ctor("Either".into(), "Rgt".into(), false, vec![Pat::Var(r)]), add(s("R:"), render(rname, v(r)))),
+                    ],
+                ))));
+            }
+        }
+        "zero-arg-generic" => {
+            // nothing but the expected type fixes T
+            cx.items.push(gfn("none", &["T"], vec![], vec![], opt(tp("T")), E::Ctor("Opt".into(), "Non".into(), false, vec![], vec![tp("T")])));
+            let d = cx.n.fresh("d");
+            cx.items.push(gfn(
+                "or_else",
+                &["T"],
+                vec![],
+                vec![(d, tp("T"))],
+                tp("T"),
+                {
+                    let g = cx.n.fresh("g");
+                    E::Match(
+                        Box::new(callg("none", vec![tp("T")], vec![])),
+                        vec![(Pat::Ctor("Opt".into(), "Som".into(), false, vec![Pat::Var(g)]), v(g)), (Pat::Ctor("Opt".into(), "Non".into(), false, vec![]), v(d))],
+                    )
+                },
+            ));
+            let (va, vi) = (value(&mut cx, a, 1), value(&mut cx, "int32", 2));
+            body.push(show(a, callg("or_else", vec![ta.clone()], vec![va])));
+            body.push(show("int32", callg("or_else", vec![Ty::i32()], vec![vi])));
+        }
+        "swapped-params" => {
+            // the same generic at (A, B) and at (B, A)
+            let (x, y) = (cx.n.fresh("x"), cx.n.fresh("y"));
+            cx.items.push(gfn("swap", &["T", "U"], vec![], vec![(x, tp("T")), (y, tp("U"))], Ty::Tuple(vec![tp("U"), tp("T")]), E::Tuple(vec![v(y), v(x)])));
+            let (r1, r2) = (cx.n.fresh("r"), cx.n.fresh("r"));
+            let (va, vb, vb2, va2) = (value(&mut cx, a, 1), value(&mut cx, b, 2), value(&mut cx, b, 3), value(&mut cx, a, 4));
+            body.push(let_t(r1, Ty::Tuple(vec![tb.clone(), ta.clone()]), callg("swap", vec![ta.clone(), tb.clone()], vec![va, vb])));
+            body.push(let_t(r2, Ty::Tuple(vec![ta.clone(), tb.clone()]), callg("swap", vec![tb.clone(), ta.clone()], vec![vb2, va2])));
+            body.push(show(b, E::Proj(Box::new(v(r1)), 0)));
+            body.push(show(a, E::Proj(Box::new(v(r1)), 1)));
+            body.push(show(a, E::Proj(Box::new(v(r2)), 0)));
+            body.push(show(b, E::Proj(Box::new(v(r2)), 1)));
+        }
         "vec-generic" => {
             let w = cx.n.fresh("w");
             cx.items.push(gfn("first", &["T"], vec![], vec![(w, Ty::Vec(Box::new(tp("T"))))], tp("T"), bi("vec_get", vec![v(w), int(0)])));
@@ -202,7 +263,8 @@ pub fn build(template: &str, a: &str, b: &str) -> Option<Program> {
             cx.items.push(gfn("pair", &["T", "U"], vec![], vec![(x, tp("T")), (y, tp("U"))], Ty::Tuple(vec![tp("T"), tp("U")]), E::Tuple(vec![v(x), v(y)])));
             let r = cx.n.fresh("r");
             let (va, vb) = (value(&mut cx, a, 1), value(&mut cx, b, 2));
-            body.push(let_(r, callg("pair", vec![ta.clone(), tb.clone()], vec![va, vb])));
+            // (a projection needs the tuple type at hand: goml does not defer it, so annotate)
+            body.push(let_t(r, Ty::Tuple(vec![ta.clone(), tb.clone()]), callg("pair", vec![ta.clone(), tb.clone()], vec![va, vb])));
             body.push(show(a, E::Proj(Box::new(v(r)), 0)));
             body.push(show(b, E::Proj(Box::new(v(r)), 1)));
         }
@@ -289,7 +351,7 @@ pub fn build(template: &str, a: &str, b: &str) -> Option<Program> {
             cx.items.push(gfn("dup", &["T"], vec![], vec![(z, tp("T"))], Ty::Tuple(vec![tp("T"), tp("T")]), callg("pair", vec![tp("T"), tp("T")], vec![v(z), v(z)])));
             let r = cx.n.fresh("r");
             let val = value(&mut cx, a, 1);
-            body.push(let_(r, callg("dup", vec![ta.clone()], vec![val])));
+            body.push(let_t(r, Ty::Tuple(vec![ta.clone(), ta.clone()]), callg("dup", vec![ta.clone()], vec![val])));
             body.push(show(a, E::Proj(Box::new(v(r)), 0)));
             body.push(show(a, E::Proj(Box::new(v(r)), 1)));
         }
@@ -354,7 +416,7 @@ pub fn build(template: &str, a: &str, b: &str) -> Option<Program> {
             let r = cx.n.fresh("r");
             let (v1, v2) = (value(&mut cx, a, 1), value(&mut cx, a, 2));
             let tt = Ty::Tuple(vec![ta.clone(), ta.clone()]);
-            body.push(let_(r, callg("id", vec![tt], vec![E::Tuple(vec![v1, v2])])));
+            body.push(let_t(r, tt.clone(), callg("id", vec![tt], vec![E::Tuple(vec![v1, v2])])));
             body.push(show(a, E::Proj(Box::new(v(r)), 1)));
             let o = cx.n.fresh("o");
             let (d, g) = (cx.n.fresh("d"), cx.n.fresh("g"));
@@ -383,12 +445,12 @@ impl Family for Generics {
         &["C07", "C01", "C02", "C03", "C04"]
     }
     fn rule(&self) -> &'static str {
-        "12 generic templates (id, pair, apply, Opt unwrap, generic struct with inherent method, trait dispatch through a bound at two impl types, generic calling generic at (T,T), recursive List[T], two bounds, two instances in one program, generic fn as a value, nested instantiation) x 13 type arguments {int32,bool,string,unit,(int32,bool),[int32;2],Vec[int32],Ref[int32],(int32)->int32,S,E2,Opt[int32],Opt[Opt[bool]]} (all ordered pairs for two-parameter templates in thorough, a diagonal band in quick); oracle: output = type-passing reference semantics, emitted Go valid (no type-parameter residue can survive the Go checker); plus the polymorphic-recursion ladder for termination. non-trivial = instantiations at non-scalar types; distinct = distinct source text"
+        "18 generic templates (a type parameter occurring only in the result type at two instantiations agreeing on the argument-bound parameter, zero-argument generic fixed by the expected type, the same generic at (A,B) and (B,A), Vec/Ref/array element generics, id, pair, apply, Opt unwrap, generic struct with inherent method, trait dispatch through a bound at two impl types, generic calling generic at (T,T), recursive List[T], two bounds, two instances in one program, generic fn as a value, nested instantiation) x 13 type arguments {int32,bool,string,unit,(int32,bool),[int32;2],Vec[int32],Ref[int32],(int32)->int32,S,E2,Opt[int32],Opt[Opt[bool]]} (all ordered pairs for two-parameter templates in thorough, a diagonal band in quick); oracle: output = type-passing reference semantics, emitted Go valid (no type-parameter residue can survive the Go checker); plus the polymorphic-recursion ladder for termination. non-trivial = instantiations at non-scalar types; distinct = distinct source text"
     }
     fn cases(&self, tier: Tier) -> Box<dyn Iterator<Item = Value> + '_> {
         let mut v = Vec::new();
         for t in TEMPLATES {
-            let two = matches!(t, "pair" | "trait-dispatch" | "two-bounds" | "two-instances");
+            let two = matches!(t, "pair" | "trait-dispatch" | "two-bounds" | "two-instances" | "return-only-param" | "swapped-params");
             for (i, a) in TYARGS.iter().enumerate() {
                 if two {
                     for (j, b) in TYARGS.iter().enumerate() {
@@ -436,7 +498,7 @@ impl Family for Generics {
             return rep;
         };
         let site = format!("template={};a={};b={}", t, a, b);
-        let opts = DiffOpts { props_sem: &["C07", "C01"], props_go: &["C02", "C07"], props_panic: &["C04", "C07"], ..DiffOpts::default() };
+        let opts = DiffOpts { props_sem: &["C07", "C01"], props_go: &["C02", "C07"], props_panic: &["C04", "C07"], props_reject: &["C07"], ..DiffOpts::default() };
         differential(&prog, &site, "generics", case, ctx, &opts, &mut rep);
         if matches!(a, "int32" | "bool" | "string" | "unit") && matches!(b, "int32" | "bool" | "string" | "unit") {
             rep.nontrivial_key = None;
